@@ -1733,7 +1733,7 @@ class Frame(ContainerOperand):
             else:
                 columns_constructor = cls._COLUMNS_HIERARCHY_CONSTRUCTOR.from_labels
                 columns = columns_constructor(
-                        zip(*(store_filter.to_type_filter_iterable(x) for x in columns_arrays)),
+                        zip(*(x if store_filter is None else store_filter.to_type_filter_iterable(x) for x in columns_arrays)),
                         name=columns_name,
                         )
             own_columns = True
